@@ -146,6 +146,16 @@ class C16(Harness):
             out["perm"] = rows_of(apply(Xp))
             Xs = X.iloc[[inp["single"]]].reset_index(drop=True)
             out["single"] = rows_of(apply(Xs))
+            # a fresh fitted object that is first given one instance and then the whole batch
+            t3 = self._build(W, k, inp, sym)
+            if k == "column-ensemble":
+                t3.fit(X, np.array([0, 1] * ni)[:ni])
+                apply3 = t3.predict_proba
+            else:
+                t3.fit(X)
+                apply3 = t3.transform
+            apply3(Xs)
+            out["batch_after_single"] = rows_of(apply3(X))
             # the same selections with their original instance labels kept (what X.iloc[...] hands over)
             out["perm_keep"] = rows_of(apply(X.iloc[inp["perm"]]))
             out["single_keep"] = rows_of(apply(X.iloc[[inp["single"]]]))
@@ -156,6 +166,7 @@ class C16(Harness):
                         for tt, v in enumerate(inp["x"][i][j]):
                             a[i, j, tt] = v
                 out["array"] = rows_of(apply(a))
+                out["array_F"] = rows_of(apply(np.asfortranarray(a)))  # the same 3-D panel in column-major memory order
                 # the same data passed as a 3-D array at FIT time
                 t2 = self._build(W, k, inp, sym)
                 t2.fit(a)
@@ -189,7 +200,10 @@ class C16(Harness):
                 self._same(P, "permutation-equivariant", out["perm_keep"][r], full[src], dk)
         if out["single_keep"]:
             self._same(P, "single-instance-equals-batch-row", out["single_keep"][0], full[inp["single"]], dk)
+        P.check("row-count-and-order", len(out["batch_after_single"]) == ni, dict(d, what="batch after a single-instance call"))
+        self._same(P, "single-instance-equals-batch-row", out["batch_after_single"], full, dict(d, what="the whole batch transformed after a single-instance call on the same object"))
         if "array" in out:
+            self._same(P, "container-independent", out["array_F"], full, dict(d, memory_order="F"))
             self._same(P, "container-independent", out["array"], full, d)
             self._same(P, "container-independent", out["fit_on_array"], full, dict(d, at="fit"))
 
